@@ -221,7 +221,7 @@ FAULT_KINDS = {
     "recv": ["timeout", "reset", "eof", "eintr"],
     "close": ["oserror"],
 }
-REPLY_FAULTS = ["error", "client_error", "server_error", "garbage"]
+REPLY_FAULTS = ["error", "client_error", "server_error", "garbage", "badvalue"]
 INTERRUPT_KINDS = ["kbd", "sysexit", "gevent"]
 
 
